@@ -10,12 +10,14 @@ import (
 	"encoding/json"
 	"encoding/pem"
 	"fmt"
+	"hash/fnv"
 	"math/big"
 	"os"
 	"path/filepath"
 	"sort"
 	"strings"
 	"sync"
+	"sync/atomic"
 	"time"
 
 	styp "github.com/google/gce-tcb-verifier/sign/types"
@@ -31,6 +33,7 @@ type CmdSpec struct {
 	Serial int    // bootstrap: initial signing serial; rotate: override (0 = default)
 	What   string // wipe: ca | keys | all
 	T      int
+	Raw    string // the specification's parameter string of the Cmd event
 }
 
 func (c CmdSpec) String() string {
@@ -53,7 +56,7 @@ func parseCmd(e Event) (CmdSpec, error) {
 	if e.Op == "Wipe" {
 		return CmdSpec{Kind: "wipe", What: e.Arg}, nil
 	}
-	c := CmdSpec{Kind: e.Arg}
+	c := CmdSpec{Kind: e.Arg, Raw: e.Out}
 	p := strings.Split(e.Out, ",")
 	if len(p) != 3 {
 		return c, fmt.Errorf("bad command params %q", e.Out)
@@ -138,6 +141,7 @@ func parseCertAny(b []byte) *x509.Certificate {
 type nodeState struct {
 	epochRot  map[string]bool // names created by rotations since the last key wipeout
 	everNames map[string]bool // all key names seen in this epoch
+	everPrim  map[string]bool // key names that were the recorded primary at some point of this epoch
 	disturbed bool            // a command failed / was refused / partial wipeout since the last full wipeout
 	boots     int
 	// a bootstrap ran over an authority that had already rotated (since the last key wipeout): the
@@ -147,15 +151,25 @@ type nodeState struct {
 	// a --keep_going command left certificates in place that do not certify the keys now in use
 	// (known finding): the rest of such a history is only checked for no-clobber and wipeout
 	staleByKeepGoing bool
+	// the date of the history's first command: certificate lifetimes are documented in days, so
+	// histories start at dates with different numbers of leap days ahead
+	base time.Time
+	// the events of the history so far, as the trace specification reads them (storage-backed
+	// combinations over the in-memory storage double only); nil once a step could not be logged
+	trace   []Event
+	noTrace bool
 }
 
 func (n nodeState) clone() nodeState {
-	c := nodeState{epochRot: map[string]bool{}, everNames: map[string]bool{}, disturbed: n.disturbed, boots: n.boots, rebootOverRotated: n.rebootOverRotated, staleByKeepGoing: n.staleByKeepGoing}
+	c := nodeState{epochRot: map[string]bool{}, everNames: map[string]bool{}, everPrim: map[string]bool{}, disturbed: n.disturbed, boots: n.boots, rebootOverRotated: n.rebootOverRotated, staleByKeepGoing: n.staleByKeepGoing, base: n.base, trace: append([]Event{}, n.trace...), noTrace: n.noTrace}
 	for k := range n.epochRot {
 		c.epochRot[k] = true
 	}
 	for k := range n.everNames {
 		c.everNames[k] = true
+	}
+	for k := range n.everPrim {
+		c.everPrim[k] = true
 	}
 	return c
 }
@@ -171,6 +185,43 @@ func canSign(a *Authority, name string) bool {
 }
 
 const day = 24 * time.Hour
+
+// recordedChainBroken says what is wrong with the chain of trust of the state on record (the recorded
+// primary has a certificate issued by the stored root that certifies the key of that name, and that
+// key can sign), or "" when it is intact.
+func recordedChainBroken(a *Authority) string {
+	kc, err := a.Loaded()
+	if err != nil {
+		return "the authority does not load: " + err.Error()
+	}
+	prim, perr := kc.CA.PrimarySigningKeyVersion(fxCtx())
+	if perr != nil || prim == "" {
+		return fmt.Sprintf("no primary signing key is on record (%v)", perr)
+	}
+	root, rerr := rootOfCA(kc)
+	var pc *x509.Certificate
+	if b, cerr := kc.CA.Certificate(fxCtx(), prim); cerr == nil {
+		pc = parseCertAny(b)
+	}
+	switch {
+	case rerr != nil || root == nil:
+		return fmt.Sprintf("the root certificate cannot be read back (%v)", rerr)
+	case pc == nil:
+		return fmt.Sprintf("the recorded primary %q has no certificate on record", prim)
+	case pc.CheckSignatureFrom(root) != nil:
+		return fmt.Sprintf("the certificate of the recorded primary %q is not issued by the stored root", prim)
+	case !canSign(a, prim):
+		return fmt.Sprintf("the recorded primary %q cannot sign", prim)
+	}
+	pub := a.PublicKeyOf(prim)
+	cp, isRSA := pc.PublicKey.(*rsa.PublicKey)
+	if pub == nil || !isRSA || pub.N.Cmp(cp.N) != 0 {
+		return fmt.Sprintf("the certificate on record for the primary %q certifies another key", prim)
+	}
+	return ""
+}
+
+var unmodelled atomic.Int64
 
 // checkCommand runs one command on a and evaluates the C12 statement on the result.
 func checkCommand(run *vk.Run, a *Authority, st *nodeState, c CmdSpec, at time.Time, hist []CmdSpec) (ok bool) {
@@ -194,12 +245,37 @@ func checkCommand(run *vk.Run, a *Authority, st *nodeState, c CmdSpec, at time.T
 		}
 	}
 	rebootstrap := c.Kind == "bootstrap" && (len(before) > 0 || len(namesBefore) > 0)
+	brokenBefore := recordedChainBroken(a)
 	t := &Tap{}
 	err := a.Exec(t, c.args(at)...)
 	if err != nil && strings.HasPrefix(err.Error(), "PANIC") {
 		viol("panic:"+c.Kind, "command %s panics: %v", c, err)
 	}
 	ok = err == nil
+	// the trace of this command
+	switch {
+	case c.Kind == "wipe" && ok:
+		st.trace = append(st.trace, Event{"Wipe", c.What, "ok"})
+	case c.Kind == "wipe":
+		st.noTrace = true // a refused wipeout has no counterpart in the specification
+	default:
+		out := "ok"
+		if err != nil {
+			out = "err"
+		}
+		st.trace = append(st.trace, Event{"Cmd", c.Kind, c.Raw})
+		for _, e := range t.Events {
+			if strings.HasPrefix(e.Arg, "?") {
+				// a key or object outside the model's name space: `rotate --rotated_key_serial_override` on an
+				// authority without a primary creates a key version named "_1" before it fails (observation,
+				// DESIGN.md 10.6); such histories are not validated against the trace specification
+				st.noTrace = true
+				unmodelled.Add(1)
+			}
+		}
+		st.trace = append(st.trace, t.Events...)
+		st.trace = append(st.trace, Event{"Return", c.Kind, out})
+	}
 	after := a.CertObjects()
 	namesAfter, _ := a.KeyNames()
 	// no-clobber: no existing certificate object changes without overwrite permission
@@ -234,6 +310,7 @@ func checkCommand(run *vk.Run, a *Authority, st *nodeState, c CmdSpec, at time.T
 			}
 			st.epochRot = map[string]bool{}
 			st.everNames = map[string]bool{}
+			st.everPrim = map[string]bool{}
 			st.rebootOverRotated = false
 		}
 		if c.What == "all" || c.What == "ca" {
@@ -255,6 +332,26 @@ func checkCommand(run *vk.Run, a *Authority, st *nodeState, c CmdSpec, at time.T
 	}
 	if !ok {
 		st.disturbed = true
+		// a refused command may leave a key behind that never became primary (C10's leftovers); but a key
+		// that WAS the recorded primary and has a recorded successor must not be able to sign, whatever
+		// the command reported (no faults are injected here)
+		if kc, lerr := a.Loaded(); lerr == nil && !st.rebootOverRotated && !st.staleByKeepGoing && !c.Kg {
+			if prim, perr := kc.CA.PrimarySigningKeyVersion(fxCtx()); perr == nil && prim != "" {
+				for n := range st.everPrim {
+					if n != prim && canSign(a, n) {
+						viol("superseded-key-signs:after-refused-"+c.Kind, "%s was refused (%v), the recorded primary is %q, and the superseded primary %q can still sign", c, err, prim, n)
+					}
+				}
+				st.everPrim[prim] = true
+				// ... and a refused command does not break the chain of trust of what is on record: if the
+				// recorded primary was certified by the stored root and could sign before, it still is and can
+				if brokenBefore == "" {
+					if broken := recordedChainBroken(a); broken != "" {
+						viol("refused-command-breaks-chain:"+c.Kind, "%s was refused (%v) and afterwards %s (before it the recorded primary %q was certified and could sign)", c, err, broken, prevPrim)
+					}
+				}
+			}
+		}
 		return
 	}
 	// successful bootstrap / rotate: inspect what it issued and what is now recorded
@@ -269,6 +366,7 @@ func checkCommand(run *vk.Run, a *Authority, st *nodeState, c CmdSpec, at time.T
 	if b, cerr := kc.CA.Certificate(fxCtx(), prim); cerr == nil {
 		primCert = parseCertAny(b)
 	}
+	st.everPrim[prim] = true
 	if rerr != nil || root == nil || primCert == nil {
 		viol("missing-cert:"+c.Kind, "after successful %s the root or primary certificate cannot be read back (%v)", c, rerr)
 		return
@@ -466,13 +564,16 @@ func RunC12(run *vk.Run) {
 		for ci, cb := range combos {
 			// quick tier: the in-memory combination runs every history, the disk/storage-backed
 			// ones a seeded quarter of them
-			if run.IsQuick() && ci > 0 && (nh+int(run.Seed)+ci)%4 != 0 {
+			if run.IsQuick() && ci > 0 && !vk.Pick(nh*8+ci, run.Seed, 4) {
 				continue
 			}
 			// quick tier: histories with a --keep_going command are four times as many as without;
-			// a seeded fifth of them is run (all of them in the thorough tier)
-			if run.IsQuick() && strings.Contains(key, "kg,") && (nh+int(run.Seed)*3+ci)%5 != 0 {
+			// a seeded fifth of them is run (a third in the thorough tier)
+			if run.IsQuick() && strings.Contains(key, "kg,") && !vk.Pick(nh*8+ci, run.Seed+5, 5) {
 				continue
+			}
+			if !run.IsQuick() && strings.Contains(key, "kg,") && !vk.Pick(nh*8+ci, run.Seed+6, 3) {
+				continue // thorough: a seeded third of the --keep_going histories (they are 4-8 times as many)
 			}
 			cur := roots[cb]
 			for _, e := range c.Cmds {
@@ -492,6 +593,9 @@ func RunC12(run *vk.Run) {
 	run.Extra["command_histories_from_TLC"] = nh
 	var wg sync.WaitGroup
 	sem := make(chan struct{}, 16)
+	var trMu sync.Mutex
+	var traces [][]string
+	var traceHist []string
 	var walk func(a *Authority, st nodeState, n *node, depth int, hist []CmdSpec)
 	walk = func(a *Authority, st nodeState, n *node, depth int, hist []CmdSpec) {
 		defer a.Close()
@@ -509,9 +613,19 @@ func RunC12(run *vk.Run) {
 			}
 			st2 := st.clone()
 			h2 := append(append([]CmdSpec{}, hist...), kid.cmd)
-			at := Tn(depth + 1)
+			if depth == 0 {
+				// 25 years from 2025-01 contain 6 leap days, from 2027-06 seven
+				// (also: a history entirely after the day the check runs, and one more than a signing
+				// certificate's lifetime before it -- the commands' --timestamp is the only clock)
+				bases := []time.Time{T0, time.Date(2027, time.June, 1, 8, 0, 0, 0, time.UTC), time.Date(2024, time.February, 29, 8, 0, 0, 0, time.UTC),
+					time.Now().UTC().AddDate(3, 0, 0).Truncate(time.Hour), time.Now().UTC().AddDate(-9, 0, 0).Truncate(time.Hour)}
+				hb := fnv.New32a()
+				fmt.Fprintf(hb, "%v|%s|%d", a.Combo, k, run.Seed)
+				st2.base = bases[int(hb.Sum32()>>7)%len(bases)]
+			}
+			at := st2.base.Add(time.Duration(depth+1) * 36 * time.Hour)
 			if kid.cmd.Kind == "rotate" && (len(k)+depth)%3 == 0 {
-				at = T0.AddDate(24, 0, depth) // late in the root's 25-year validity
+				at = st2.base.AddDate(24, 0, depth) // late in the root's 25-year validity
 			}
 			checkCommand(run, b, &st2, kid.cmd, at, h2)
 			run.Case(fmt.Sprintf("%v|%v", a.Combo, h2), true)
@@ -519,6 +633,12 @@ func RunC12(run *vk.Run) {
 				run.Sample(map[string]any{"combo": a.Combo.String(), "history": fmt.Sprint(h2)})
 			}
 			if len(kid.kids) == 0 {
+				if b.CA == "gcsca" && !st2.noTrace && len(st2.trace) > 0 {
+					trMu.Lock()
+					traces = append(traces, traceOf(st2.trace))
+					traceHist = append(traceHist, fmt.Sprintf("%v %v", b.Combo, h2))
+					trMu.Unlock()
+				}
 				b.Close()
 				continue
 			}
@@ -541,9 +661,27 @@ func RunC12(run *vk.Run) {
 			run.Infra(err)
 			return
 		}
-		walk(a, nodeState{epochRot: map[string]bool{}, everNames: map[string]bool{}}, roots[combo], 0, nil)
+		walk(a, nodeState{epochRot: map[string]bool{}, everNames: map[string]bool{}, everPrim: map[string]bool{}}, roots[combo], 0, nil)
 	}
 	wg.Wait()
+	// code -> spec: the recorded executions of the complete histories (storage-backed combination over
+	// the in-memory storage double) must be behaviours of KeyAuthority.tla
+	if len(traces) > 0 {
+		rej, at, err := vk.ValidateTraces(run, "Trace_KeyAuthority", "Trace_KeyAuthority_cmds.cfg", traces, true)
+		if err != nil {
+			run.Infra(err)
+			return
+		}
+		for n, k := range rej {
+			if n < 4 {
+				fmt.Fprintf(vk.Stdout, "DRIFT property=C12 recorded execution rejected by Trace_KeyAuthority at event %d: %s :: %s\n", at[k], traceHist[k], strings.Join(traces[k][1:], " "))
+			}
+		}
+		run.AddDrift(int64(len(rej)))
+		run.Extra["real_traces_validated"] = len(traces)
+		run.Extra["histories_outside_the_models_name_space"] = unmodelled.Load()
+		run.Extra["real_traces_accepted_by_spec"] = len(traces) - len(rej)
+	}
 	run.Exhaustive = true
 	run.Rule = "every command history of the tier's length over {bootstrap(serial, overwrite), rotate(serial override, overwrite), wipeout ca|keys|all} emitted by TLC (including re-bootstrap over a populated authority) is executed through the cobra commands for memkm+memca, localkm+gcsca and localkm+localca, sharing prefixes by cloning the authority; after every command the certificates are read back and the C12 predicates evaluated; distinct = (combination, history prefix)"
 }
